@@ -112,9 +112,10 @@ def run_impl_all(mod, cases):
     global _MOD
     _MOD = mod
     if getattr(mod, 'PARALLEL', True) and len(cases) > 32:
+        from concurrent.futures import ProcessPoolExecutor
         ctx = mp.get_context('fork')
-        with ctx.Pool(min(16, os.cpu_count() or 4)) as pool:
-            return pool.map(_impl_worker, cases, chunksize=max(1, len(cases) // 64))
+        with ProcessPoolExecutor(max_workers=min(16, os.cpu_count() or 4), mp_context=ctx) as pool:
+            return list(pool.map(_impl_worker, cases, chunksize=max(1, len(cases) // 64)))
     return [_impl_worker(c) for c in cases]
 
 
